@@ -1,6 +1,7 @@
 import VermouthProofs.C02_Atoms
 import VermouthProofs.C02_Walk
 import VermouthProofs.C02_Errors
+import VermouthProofs.C02_Hist
 import Generated.C02Tables
 /-!
 # C02 — a written ITP states exactly the molecule held in memory
@@ -254,6 +255,33 @@ theorem parse_write (tbl : List (String × Arity)) (m : Mol) (h : wellFormed tbl
 theorem parse_write_repo (m : Mol) (h : wellFormed arityTable m = true) (hc : charOk m = true) :
     ∃ ls, write m = .ok ls ∧ parse arityTable (render ls) = .ok (canon m) :=
   parse_write arityTable m h hc
+
+/-! ## histories: one molecule object edited in place and written again -/
+
+/-- **The writer has no memory.**  In a session that writes one molecule, edits it in place
+(atom ids permuted / assigned / deleted, fields changed, nodes and interactions added or removed,
+guards and groups changed) and writes it again, round after round, the k-th text is what
+`write` gives on the molecule's CURRENT state — nothing of an earlier write or an earlier atom
+order survives. -/
+theorem write_depends_on_state_only (m : Mol) (rounds : List (List Edit)) (k : Nat)
+    (hk : k < rounds.length) :
+    (session m rounds)[k]? = some (write (applyEdits m (rounds.take (k + 1)).flatten)) :=
+  session_get m rounds k hk
+
+/-- ... hence equal to what a freshly built equal molecule writes -/
+theorem session_equals_fresh (m fresh : Mol) (rounds : List (List Edit)) (k : Nat) (hk : k < rounds.length)
+    (heq : fresh = applyEdits m (rounds.take (k + 1)).flatten) :
+    (session m rounds)[k]? = some (write fresh) := by
+  rw [heq]; exact session_get m rounds k hk
+
+/-- ... and its atom rows are numbered 1..N in the atom-id order of the CURRENT atom ids -/
+theorem session_atoms_current_order (m : Mol) (rounds : List (List Edit)) (k : Nat) (hk : k < rounds.length)
+    (ls : List Line) (h : (session m rounds)[k]? = some (.ok ls)) :
+    ls.filterMap Line.atomRow? = sortedNodes (applyEdits m (rounds.take (k + 1)).flatten)
+    ∧ ls.filterMap Line.atomIdx? = List.range' 1 (applyEdits m (rounds.take (k + 1)).flatten).atoms.length := by
+  rw [session_get m rounds k hk] at h
+  have h' := Option.some.inj h
+  exact ⟨(write_atoms_consecutive _ ls h').2, (write_atoms_consecutive _ ls h').1⟩
 
 /-! ## non-vacuity -/
 
